@@ -88,46 +88,47 @@ Definition postprocess (pc : pcounter) (lines : list str) (ignore : Z) : pcounte
                else pc)
             (yield_parses lines ignore) pc.
 
-(* ---------- option extraction: re.sub(r'^.*\-X *([0-9]+).*$', r'\g<1>', args) ---------- *)
+(* ---------- option extraction: _get_int_option(args, option) ----------
+   The argument string is split by shlex.split (Python library, not modelled: the model
+   starts from the token list and the harness hands it shlex.split(args)); the tokens are
+   examined one by one. *)
 
 Definition is_digit (c : char) : bool := (48 <=? c)%N && (c <=? 57)%N.
 
-Fixpoint take_digits (s : str) : str :=
-  match s with c :: r => if is_digit c then c :: take_digits r else [] | [] => [] end.
-Fixpoint skip_spaces (s : str) : str :=
-  match s with c :: r => if (c =? sp)%N then skip_spaces r else s | [] => [] end.
+(* re.fullmatch('[0-9]+', s) *)
+Definition all_digits (s : str) : bool :=
+  match s with [] => false | _ => forallb is_digit s end.
 
 Definition num_of (ds : str) : Z := fold_left (fun acc c => (acc * 10 + Z.of_N (c - 48))%Z) ds 0%Z.
 
-(* does "-X *digits" match at the beginning of s? *)
-Definition opt_at (flag : char) (s : str) : option str :=
-  match s with
-  | 45%N :: f :: r =>
-    if (f =? flag)%N then
-      match take_digits (skip_spaces r) with [] => None | ds => Some ds end
-    else None
+(* arg == option *)
+Definition is_flag (flag : char) (tok : str) : bool := str_eqb tok [45%N; flag].
+
+(* re.fullmatch(option + '[0-9]+', arg): the attached form '-n10' *)
+Definition attached (flag : char) (tok : str) : option str :=
+  match tok with
+  | 45%N :: f :: ds => if (f =? flag)%N && all_digits ds then Some ds else None
   | _ => None
   end.
 
-(* the greedy ^.* makes the LAST matching position win; '.' does not cross a newline,
-   argument strings have none *)
-Fixpoint last_opt (flag : char) (s : str) : option str :=
-  match s with
-  | [] => None
-  | _ :: r =>
-    match last_opt flag r with
-    | Some d => Some d
-    | None => opt_at flag s
-    end
+(* the loop of _get_int_option: [acc] is `value` so far; every token is examined, the one
+   following the option included; after the option as last token the value is '' *)
+Fixpoint opt_value (flag : char) (toks : list str) (acc : option str) : option str :=
+  match toks with
+  | [] => acc
+  | t :: r =>
+    if is_flag flag t then opt_value flag r (Some (match r with v :: _ => v | [] => [] end))
+    else match attached flag t with
+         | Some ds => opt_value flag r (Some ds)
+         | None => opt_value flag r acc
+         end
   end.
 
-Definition has_flag (flag : char) (args : str) : bool := infix_b [45%N; flag] args.
-
-(* int(re.sub(...)) : ValueError when the pattern does not match (sub leaves the string unchanged) *)
-Definition int_opt (flag : char) (args : str) : result Z :=
-  match last_opt flag args with
-  | Some ds => Ok (num_of ds)
-  | None => Raise ValueError
+(* None: the option is absent; ValueError: its value is not made of digits *)
+Definition int_option (flag : char) (toks : list str) : result (option Z) :=
+  match opt_value flag toks None with
+  | None => Ok None
+  | Some v => if all_digits v then Ok (Some (num_of v)) else Raise ValueError
   end.
 
 Definition ch_n : char := 110%N.
@@ -136,14 +137,16 @@ Definition ch_r : char := 114%N.
 
 (* nparses as computed by segment() *)
 (* len(range(0, niterations, interval)) + 1, defaults 2000 and 1 *)
-Definition wrapper_nparses (args : str) : result Z :=
-  do n <- (if has_flag ch_n args then int_opt ch_n args else Ok 2000%Z);
-  do x <- (if has_flag ch_x args then int_opt ch_x args else Ok 1%Z);
+Definition wrapper_nparses (toks : list str) : result Z :=
+  do on <- int_option ch_n toks;
+  do ox <- int_option ch_x toks;
+  let n := match on with Some n => n | None => 2000%Z end in
+  let x := match ox with Some x => x | None => 1%Z end in
   if (x =? 0)%Z then Raise ValueError          (* range() arg 3 must not be zero *)
   else Ok ((n + x - 1) / x + 1)%Z.
 
-Definition effective_ignore (args : str) (ignore : Z) : result Z :=
-  do np <- wrapper_nparses args;
+Definition effective_ignore (toks : list str) (ignore : Z) : result Z :=
+  do np <- wrapper_nparses toks;
   let ig := if (ignore <? 0)%Z then Z.max 0 (np + ignore) else ignore in
   if (np <=? ig)%Z then Raise RuntimeError else Ok ig.
 
@@ -163,40 +166,51 @@ Fixpoint digits_fuel (fuel : nat) (z : Z) (acc : str) : str :=
   end.
 Definition str_of_Z (z : Z) : str := digits_fuel (S (Z.to_nat (Z.log2 (Z.max 1 z)))) z [].
 
-(* re.sub(r'\-r *([0-9]+)', '-r N', args): every occurrence, left to right *)
-Fixpoint sub_seed (fuel : nat) (s : str) (new : str) : str :=
-  match fuel with
-  | O => s
-  | S f =>
-    match s with
-    | [] => []
-    | c :: r =>
-      match opt_at ch_r s with
-      | Some ds =>
-        (* matched text: "-r", spaces, digits *)
-        let rest := skipn (length ds) (skip_spaces (skipn 1 r)) in
-        [45%N; ch_r; sp] ++ new ++ sub_seed f rest new
-      | None => c :: sub_seed f r new
-      end
-    end
+(* the arguments of one run: every "-r <value>" pair and every "-r<digits>" token becomes
+   "-r" <new>; the other tokens are kept (the code quotes them back with shlex.quote and
+   joins them with spaces: shlex.split of that string gives these tokens back).
+   "-r" as last token is not reachable: _get_int_option has raised ValueError before
+   (int_option_flag_last in ModelProofs.v). *)
+Fixpoint reseed (toks : list str) (new : str) : list str :=
+  match toks with
+  | [] => []
+  | t :: r =>
+    if is_flag ch_r t then
+      [45%N; ch_r] :: new :: match r with [] => [] | _ :: r' => reseed r' new end
+    else match attached ch_r t with
+         | Some _ => [45%N; ch_r] :: new :: reseed r new
+         | None => t :: reseed r new
+         end
   end.
 
-Definition setup_seed_given (args : str) (nruns : nat) : result (list str) :=
-  do seed <- int_opt ch_r args;
-  Ok (map (fun run => sub_seed (S (length args)) args (str_of_Z (seed + Z.of_nat run))) (seq 0 nruns)).
+(* without -r the seeds come from random.randint, one draw per run: an explicit list;
+   the code appends ' -r N' to the argument string *)
+Definition setup_seed (toks : list str) (nruns : nat) (rnd : list Z) : result (list (list str)) :=
+  do os <- int_option ch_r toks;
+  match os with
+  | Some seed => Ok (map (fun run => reseed toks (str_of_Z (seed + Z.of_nat run))) (seq 0 nruns))
+  | None => Ok (map (fun z => toks ++ [[45%N; ch_r]; str_of_Z z]) (firstn nruns rnd))
+  end.
 
-(* without -r, the seeds come from random.randint: an explicit list *)
-Definition setup_seed (args : str) (nruns : nat) (rnd : list Z) : result (list str) :=
-  if has_flag ch_r args then setup_seed_given args nruns
-  else Ok (map (fun z => args ++ [sp; 45%N; ch_r; sp] ++ str_of_Z z) (firstn nruns rnd)).
+(* the tokens that are not part of a seed option *)
+Fixpoint unseeded (toks : list str) : list str :=
+  match toks with
+  | [] => []
+  | t :: r =>
+    if is_flag ch_r t then match r with [] => [] | _ :: r' => unseeded r' end
+    else match attached ch_r t with
+         | Some _ => unseeded r
+         | None => t :: unseeded r
+         end
+  end.
 
 (* ---------- segment as a function of the runs' outputs ---------- *)
 
 (* runs: the raw output lines of each run, in the order in which the runs'
    postprocessing is applied to the shared counter *)
-Definition segment_from_outputs (nutts : nat) (args : str) (ignore : Z) (runs : list (list str))
+Definition segment_from_outputs (nutts : nat) (toks : list str) (ignore : Z) (runs : list (list str))
   : result (list str) :=
-  do ig <- effective_ignore args ignore;
+  do ig <- effective_ignore toks ignore;
   let pc := fold_left (fun pc lines => postprocess pc lines ig) runs (pc_init nutts) in
   pc_most_common pc.
 
@@ -248,7 +262,7 @@ Definition run_yield_parses (j : J) : J :=
 Definition run_segment_outputs (j : J) : J :=
   match j with
   | JL [nutts; args; ig; runs] =>
-    match d_nat nutts, d_str args, d_Z ig, d_list (d_list d_str) runs with
+    match d_nat nutts, d_list d_str args, d_Z ig, d_list (d_list d_str) runs with
     | Some nutts, Some args, Some ig, Some runs =>
       j_result (j_list j_str) (segment_from_outputs nutts args ig runs)
     | _, _, _, _ => j_bad end
@@ -257,7 +271,7 @@ Definition run_segment_outputs (j : J) : J :=
 Definition run_nparses (j : J) : J :=
   match j with
   | JL [args; ig] =>
-    match d_str args, d_Z ig with
+    match d_list d_str args, d_Z ig with
     | Some args, Some ig => JL [j_result JI (wrapper_nparses args); j_result JI (effective_ignore args ig)]
     | _, _ => j_bad end
   | _ => j_bad end.
@@ -265,8 +279,8 @@ Definition run_nparses (j : J) : J :=
 Definition run_setup_seed (j : J) : J :=
   match j with
   | JL [args; nruns; rnd] =>
-    match d_str args, d_nat nruns, d_list d_Z rnd with
-    | Some args, Some nruns, Some rnd => j_result (j_list j_str) (setup_seed args nruns rnd)
+    match d_list d_str args, d_nat nruns, d_list d_Z rnd with
+    | Some args, Some nruns, Some rnd => j_result (j_list (j_list j_str)) (setup_seed args nruns rnd)
     | _, _, _ => j_bad end
   | _ => j_bad end.
 
